@@ -1,3 +1,4 @@
+import math
 from typing import Union
 
 import torch
@@ -53,31 +54,39 @@ class LotkaVolterraOscillating:
         self._gaussian = distributions.MultivariateNormal(
             loc=mean, covariance_matrix=covariance
         )
-        self._uniform = BoxUniform(low=-5 * torch.ones(4), high=2 * torch.ones(4))
+        self._low, self._high = -5.0, 2.0
+        self._uniform = BoxUniform(
+            low=self._low * torch.ones(4), high=self._high * torch.ones(4)
+        )
+        # Probability mass of each (independent) Gaussian factor inside [low, high]:
+        # Phi((high - mean) / sigma) - Phi((low - mean) / sigma), Phi(z) = (1 + erf(z / sqrt(2))) / 2.
+        scale = sigma * math.sqrt(2.0)
         self._log_normalizer = -torch.log(
-            torch.erf((2 - mean) / sigma) - torch.erf((-5 - mean) / sigma)
+            0.5
+            * (
+                torch.erf((self._high - mean) / scale)
+                - torch.erf((self._low - mean) / scale)
+            )
         ).sum()
 
-    def log_prob(self, value):
-        unnormalized_log_prob = self._gaussian.log_prob(value) + self._uniform.log_prob(
-            value
-        )
+    def _inside_box(self, value):
+        return ((value >= self._low) & (value <= self._high)).all(dim=-1)
 
-        return self._log_normalizer + unnormalized_log_prob
+    def log_prob(self, value):
+        # Gaussian truncated to the box: the box only contributes its indicator.
+        log_prob = self._log_normalizer + self._gaussian.log_prob(value)
+        return torch.where(
+            self._inside_box(value), log_prob, torch.full_like(log_prob, -float("inf"))
+        )
 
     def sample(self, sample_shape=torch.Size()):
         num_remaining_samples = sample_shape[0]
         samples = []
         while num_remaining_samples > 0:
             candidate_samples = self._gaussian.sample((num_remaining_samples,))
-
-            uniform_log_prob = self._uniform.log_prob(candidate_samples)
-
-            accepted_samples = candidate_samples[~torch.isinf(uniform_log_prob)]
-            samples.append(accepted_samples.detach())
-
-            num_accepted = (~torch.isinf(uniform_log_prob)).sum().item()
-            num_remaining_samples -= num_accepted
+            accepted = self._inside_box(candidate_samples)
+            samples.append(candidate_samples[accepted].detach())
+            num_remaining_samples -= accepted.sum().item()
 
         # Aggregate collected samples.
         samples = torch.cat(samples)
